@@ -153,7 +153,18 @@ fn run_row(case: &Value) -> Vec<(String, Value, Value)> {
           apply_optional(&mut j, &opt);
           Some(j)
         }
-        Err(_) => None,
+        Err(_) => {
+          // a refused setter leaves the key as it was: the key the caller still holds is a JWK like any other
+          let untouched = Jwk::new(kty_of(declared));
+          if j != untouched || j.kty().name() != kty_name(carried_family(&j)) {
+            diffs.push((
+              "refused_setter_changed_the_key".into(),
+              serde_json::to_value(&untouched).unwrap(),
+              json!({"kty": j.kty().name(), "params": carried_family(&j), "key": serde_json::to_value(&j).unwrap()}),
+            ));
+          }
+          None
+        }
       }
     }
     _ => {
